@@ -352,15 +352,45 @@ func (t *HHWheelTimer) expireNear() {
 		t.guard.Unlock()
 
 		if scheduled {
-			t.C <- node.r // trigger
-
-			// schedule again
 			if node.period > 0 {
-				node.deadline = t.tickTime + node.period
-				t.addNode(node)
+				// schedule again, unless it was cancelled while waiting for the consumer
+				if t.deliverRepeating(node) {
+					node.deadline = t.tickTime + node.period
+					t.addNode(node)
+				}
+			} else {
+				t.C <- node.r // trigger
 			}
 		}
 		node = next
+	}
+}
+
+// A repeating timer stays in the refer map when it fires, so it can be cancelled while
+// the worker waits for room in the output channel.  Hand its runnable over only while it
+// is still scheduled: the check and the (non-blocking) send are one step under the mutex,
+// so a Cancel that returns true is never followed by a delivery; when the channel is
+// full, wait for the consumer without holding the mutex.
+func (t *HHWheelTimer) deliverRepeating(node *WheelTimerNode) bool {
+	for {
+		t.guard.Lock()
+		if t.refer[node.id] != node {
+			t.guard.Unlock()
+			return false // cancelled while waiting
+		}
+		select {
+		case t.C <- node.r:
+			t.guard.Unlock()
+			return true
+		default:
+		}
+		t.guard.Unlock()
+
+		select {
+		case <-t.done:
+			return false
+		case <-time.After(t.tickInterval):
+		}
 	}
 }
 
